@@ -158,6 +158,17 @@ def rand_dim_transforms(rng, role, other_role=None, rich=True):
                       "direction": rng.choice(["ascending", "descending"])}
     if rich and rng.random() < 0.15:
         t["prune"] = True
+    if rich and rng.random() < 0.12:
+        # a smoother spec: mostly the supported function, sometimes one the library rejects (every smoothed
+        # read then raises NotImplementedError - each time, not only the first two: seeded change C18-7
+        # left the unsmoothed block cached under the smoothed measure's name when the factory raised)
+        sm = {"window": rng.choice([2, 3, 0, None, 2])}
+        f = rng.random()
+        if f < 0.6:
+            sm["function"] = "one_sided_moving_avg"
+        elif f < 0.9:
+            sm["function"] = rng.choice(["two_sided_moving_avg", "exponential", ""])
+        t["smoother"] = sm
     if rich and rng.random() < 0.1:
         t["name"] = "Dim renamed"
     if rich and role[0] == "cat" and rng.random() < 0.25:
@@ -649,6 +660,11 @@ def gen_schedule(rng, world, probes, n_reads):
         op = ["read", k, list(target), name, list(args)]
         sched.append(op)
         history.append(op)
+    if history and rng.random() < 0.35:
+        # one read made so far, four times in a row: the same read gives the same result (value or
+        # exception) however often it is repeated
+        op = rng.choice(history)
+        sched += [copy.deepcopy(op) for _ in range(4)]
     if history and rng.random() < 0.5:
         # every distinct read made so far once more, after all the others, in another order: finds a
         # read that edits the value another one cached, whatever the pair
@@ -681,6 +697,25 @@ def gen_schedule(rng, world, probes, n_reads):
     for k in range(n_obj):
         if k not in made:
             sched.append(["new", k])
+    return sched
+
+
+def gen_repeats(rng, world, probes):
+    """every object built first; then, on one target per object, a handful of reads (the smoothed ones
+    first when the class has any) each made FOUR times in a row: a read gives the same result - value or
+    exception - however often it is repeated (seeded change C18-7: the third failing read returned a value)"""
+    sched = [["new", k] for k in range(len(world["objects"]))]
+    for k in sorted(probes):
+        if not probes[k]:
+            continue
+        target, cls = rng.choice(probes[k])
+        reads = list(E.READS[cls])
+        smoothed = [r for r in reads if "smoothed" in r[0]]
+        rng.shuffle(smoothed)
+        picks = smoothed[:3] + rng.sample(reads, min(3, len(reads)))
+        for name, args in picks:
+            for _ in range(4):
+                sched.append(["read", k, list(target), name, list(args)])
     return sched
 
 
@@ -1199,6 +1234,9 @@ def check_world(rep, world, rng, n_reads, corr=None, do_forms=False):
             rep.dist("families-on-strand")
         if pair in ("population-before-proportion", "proportion-before-population"):
             rep.dist("families:%s:%s" % (pair, fcls))
+    elif n_reads == "repeat":
+        sched = gen_repeats(rng, world, probes)
+        rep.dist("schedule=repeat")
     else:
         sched = gen_schedule(rng, world, probes, n_reads)
         rep.dist("schedule=random")
@@ -1255,6 +1293,20 @@ def run(tier, seed):
         world = gen_world(rng, k)
         n_reads = rng.choice([6, 12, 25, 40, 60, "sweep", "sweep", "sweep", "families", "families"])
         check_world(rep, world, rng, n_reads, corr=corr, do_forms=(k % 4 == 0))
+    # REPEAT stream: worlds whose transforms carry a smoother spec on both dimensions - half of them a
+    # function the library rejects - read with the "repeat" schedule
+    rng_r = random.Random(seed + 23)
+    for k in range(40 if not thorough else 500):
+        world = w_single(rng_r, k)
+        for t in world["transforms"]:
+            if isinstance(t, dict):
+                for key in ("rows_dimension", "columns_dimension"):
+                    d = t.setdefault(key, {})
+                    if isinstance(d, dict):
+                        d["smoother"] = {"function": rng_r.choice(["one_sided_moving_avg", "two_sided_moving_avg",
+                                                                   "exponential", "one_sided_moving_avg"]),
+                                         "window": rng_r.choice([2, 3, 0])}
+        check_world(rep, world, rng_r, "repeat", corr=None, do_forms=False)
     t_hist = time.time() - t0
     rng2 = random.Random(seed + 5)
     for k in range(n_side):
